@@ -195,7 +195,7 @@ def race_check(res):
 
 def run(res):
     theorems = ["Props.c10_structure", "Props.c10_core", "Props.c10_reported_iff", "Props.c10_total",
-                "Props.c10_grouping_witness", "Props.c10_grouping_witness_value", "Props.c10_unknown_function_refused", "Props.c10_unknown_method_refused", "Props.c10_fragment_accepted", "Props.c10_index_refused"]
+                "Props.c10_grouping_witness", "Props.c10_grouping_witness_value", "Props.c10_unknown_function_refused", "Props.c10_unknown_method_refused", "Props.c10_fragment_accepted", "Props.c10_index_refused", "Props.c10_div_zero_witness"]
     broken, model_ok = gen.prepare(res, "Gvlean.Props.C10", theorems)
     if broken is None:
         return
